@@ -229,5 +229,7 @@ func localIdentOfValue(v local) ir.LocalIdent {
 	if v.IsUnnamed() {
 		return ir.LocalIdent{LocalID: v.ID()}
 	}
-	return ir.LocalIdent{LocalName: v.Name()}
+	// Note, v.Name() quotes and reformats names that look like numbers (e.g.
+	// "007" -> `"7"`); decode the verbatim name from the identifier instead.
+	return localIdentFromText(v.Ident())
 }
